@@ -22,6 +22,11 @@ CLAIMED = {
   note="Does not decide liveness of owners, equality of the merged result with a single-node result, or truncated streams. The skip of a shard with an empty owner list is exempted on the grounds that the metadata never publishes a live shard without owners (C06 invariant).",
   technique="static analysis: per-site nil/outcome dataflow, loop-iteration path counting, type-switch exhaustiveness",
   ref="§4 C05"),
+ "C03": dict(
+  text="The outcome table of the cluster write path decided over every path of the per-owner goroutine and the collector (each path = one combination of per-owner outcomes): exactly one result per owner, hinted handoff offered exactly once exactly when required, accepted handoff = success under level any on both handoff branches, handoff error surfaces, required = 1 | floor(n/2)+1 | n by constant folding for n=1..64 with the level registry covered, success only under wrote >= required, partial/failed/timeout classification, honest remote acknowledgement (store returned nil / code 0), failed exchange poisons the pooled connection, one handoff processor per (node, shard).",
+  note="Does not decide timing (success within the timeout) or goroutine scheduling; arrival order is irrelevant by construction because the collector only counts. Frozen exceptions: shard group gone, request without db/rp from an old sender.",
+  technique="static analysis: path exploration with markers and outcome facts, integer expression folding, site rules",
+  ref="§4 C03"),
 }
 
 NA = {
